@@ -54,14 +54,16 @@ def leak_features(states, e):
     f = dict(action=action)
     form = st.get('form', {}).get('a1', 'raw')
     g = None
-    if action in ('AssetSetup', 'PortfolioSetup', 'PortfolioSplit'):
+    if action == 'CostSamples':
+        g = args[0]
+    elif action in ('AssetSetup', 'PortfolioSetup', 'PortfolioSplit'):
         g = args[-2]
     elif action == 'AssetSetupNoGrid':
         g = st['agrid'][args[0]]
         f['stale_window'] = g != 'none' and st['rest'].get(g) != args[0]
     elif action == 'PortfolioSetupNoGrid':
         g = st['pgrid']
-    uses_a1 = action.startswith('Portfolio') or (args and args[0] == 'a1')
+    uses_a1 = action.startswith('Portfolio') or action == 'CostSamples' or (args and args[0] == 'a1')
     f['dict_localised_then_naive_grid'] = bool(uses_a1 and form == 'localised' and g not in (None, 'none') and ZONE[g] == 'naive')
     f['dict_form'] = form if uses_a1 else 'n/a'
     return f
